@@ -1041,6 +1041,10 @@ class ParseUniq:
             blocknode=blocknode,
         )
 
+    def create_syntaxhighlight(self, _name, vlist, inner, xopts):
+        # same node as <source>; do not re-parse the body (it may contain "</source>")
+        return self.create_source("source", vlist, inner, xopts)
+
     def create_ref(self, _name, vlist, inner, xopts):
         expander = xopts.expander
         if expander is not None and inner:
